@@ -44,6 +44,8 @@ type ClientPlan struct {
 	// the first step is enabled only after these clients have finished
 	StartAfterDone   []int
 	StartAfterCancel bool
+	// clients with the same non-zero SessionGroup share a TLS session cache (resumption)
+	SessionGroup int
 }
 
 type RespRecord struct {
@@ -223,6 +225,13 @@ func (c *Client) exec(s *Step) error {
 			return nil
 		}
 		cfg := &utls.Config{InsecureSkipVerify: true, ServerName: c.Plan.Hello.SNI()}
+		if g := c.Plan.SessionGroup; g != 0 {
+			cfg.ClientSessionCache = c.W.sessionCache(g)
+			cfg.OmitEmptyPsk = true
+			if cfg.ServerName == "" {
+				cfg.ServerName = "resume.verif.test"
+			}
+		}
 		u := utls.UClient(conn, cfg, utls.HelloCustom)
 		if err := u.ApplyPreset(c.Plan.Hello.Spec()); err != nil {
 			c.HandshakeErr = "preset: " + err.Error()
@@ -235,6 +244,9 @@ func (c *Client) exec(s *Step) error {
 			return err
 		}
 		st := u.ConnectionState()
+		if st.DidResume {
+			c.W.Probe("tls_session_resumed")
+		}
 		c.W.Net.mu.Lock()
 		c.HandshakeBytes = conn.out.total
 		c.W.Net.mu.Unlock()
